@@ -1178,6 +1178,10 @@ func (s *sim) rerun() {
 	before := s.seenIDs
 	upd := s.updateCounters()
 	s.logf("h=%d RERUN", h0)
+	rerunFaults := 0
+	if os.Getenv("VERIF_NO_RERUN_FAULTS") != "" {
+		rerunFaults = 1 << 30
+	}
 	for i := 0; i < s.cfg.N; i++ {
 		s.start(i)
 	}
@@ -1187,12 +1191,23 @@ func (s *sim) rerun() {
 			break
 		}
 		s.mu.Lock()
+		var again []int
 		for i, m := range s.m {
 			if m.finished && m.err != nil {
+				if m.faulted {
+					// gave up after an injected read failure (the set-up reads of
+					// Deploy are not retried): started once more, as in the main phase
+					again = append(again, i)
+					continue
+				}
 				s.violate("C13/rerun-returned-error", "member %d: %v", i, m.err)
 			}
 		}
 		s.mu.Unlock()
+		for _, i := range again {
+			s.count("rerun_member_restarted_after_fault")
+			s.start(i)
+		}
 		if len(s.res.Violations) > 0 {
 			return
 		}
@@ -1203,7 +1218,26 @@ func (s *sim) rerun() {
 		s.decisions++
 		parked := s.c.gate.Take()
 		if len(parked) > 0 {
-			s.c.gate.Release(parked[s.pick(len(parked))])
+			p := parked[s.pick(len(parked))]
+			if !p.write && s.cfg.RPCErrPct > 0 && rerunFaults < 25 && s.rng.IntN(100) < s.cfg.RPCErrPct {
+				// a read fails during the re-run as well (a bounded number of
+				// times): the member has to come back to the step, not to skip or
+				// repeat work because of what it could not see
+				rerunFaults++
+				s.inject("rpc.error")
+				s.fired("rpc.error")
+				s.count("probe.rerun_read_failed")
+				s.m[p.member].faulted = true
+				s.logf("d=%d h=%d rerun rpcfail m%d %s", s.decisions, s.c.bc.BlockHeight(), p.member, p.name)
+				for _, q := range parked {
+					if q != p && !q.write && q.member == p.member && q.inc == p.inc && q.name == p.name {
+						s.c.gate.Fail(q)
+					}
+				}
+				s.c.gate.Fail(p)
+				continue
+			}
+			s.c.gate.Release(p)
 			continue
 		}
 		if s.deliver() {
